@@ -422,6 +422,27 @@ nd::harnesses! {
         assert!(live() == 0 && drops() == made(), "every payload destroyed exactly once");
     }
 
+    /// KNOWN FINDING scenario (same root cause as C07's): a method returning a borrowed wrapped object on an object whose
+    /// context is an owning handle clones the handle into temporary storage that is never dropped - the allocation
+    /// behind the context is never released ("nothing is leaked" fails for the context's allocation).
+    #[kani::unwind(4)]
+    fn c06_kf_borrowed_child_context_clone_never_released() {
+        reset();
+        let v: u32 = nd::any();
+        let base = std::sync::Arc::new(Pay::new(v));
+        {
+            let obj = trait_obj!((P::new(v), CArc::<Pay>::from(base.clone())) as BorrowRef);
+            {
+                let l = obj.borrow_leaf();
+                let _ = l.ro_val();
+            }
+            drop(obj);
+        }
+        assert!(std::sync::Arc::strong_count(&base) == 1, "borrowed child: the context clone held by the temporary wrapper is released");
+        drop(base);
+        balanced();
+    }
+
     /// Negative twin: claims a consuming call leaves the value alive.
     #[kani::unwind(4)]
     fn c06_negative_twin() {
